@@ -492,3 +492,32 @@ sub('algorithm/bfgs/bfgs.go','''      } else {
         H2.Set(H0)
         first_update = true
       }''')
+# --- batch N rules
+sub('utility.go','''  if err != nil {
+    // ignore EOF errors if some bytes were read
+    if len(l) > 0 && err == io.EOF {
+      return l, nil
+    }
+    return l, err
+  }
+  // remove newline character
+  return l[0:len(l)-1], err''','''  if err == nil {
+    // remove newline character
+    n := len(l)
+    return l[0:n-1], nil
+  }
+  // ignore EOF errors if some bytes were read
+  if err == io.EOF && len(l) > 0 {
+    return l, nil
+  }
+  return l, err''')
+sub('statistics/vectorEstimator/normal.go','''    obj.gamma_max = math.Inf(-1)
+    for i := 0; i < gamma.Dim(); i++ {
+      if g := gamma.ConstAt(i).GetFloat64(); obj.gamma_max < g {
+        obj.gamma_max = g
+      }''','''    obj.gamma_max = math.Inf(-1)
+    for i := 0; i < gamma.Dim(); i++ {
+      g := gamma.ConstAt(i).GetFloat64()
+      if g > obj.gamma_max {
+        obj.gamma_max = g
+      }''')
